@@ -149,9 +149,15 @@ def run(ctx):
                 if cls == 'grow':
                     # growth must be real: new length derives from the old length with arithmetic (x2)
                     g = origin(enc, enc.term(resizes[0])['args'][1])
-                    real = 'len' in g.flags and g.has_arith()
+                    # strictly larger: old_len * k (k >= 2) or old_len + c (c >= 1); nothing else may take part
+                    ar = {x for x in g.flags if x.startswith('arith:')}
+                    cs = {x for x in g.consts() if isinstance(x, int)}
+                    mul = bool(ar) and ar <= {'arith:MulWithOverflow', 'arith:Mul'} and bool(cs) and min(cs) >= 2
+                    add = bool(ar) and ar <= {'arith:AddWithOverflow', 'arith:Add'} and bool(cs) and min(cs) >= 1
+                    only_len = 'len' in g.flags and 'output_vec' in g.fields and g.params() <= {1} and not g.call_names()
+                    real = (mul or add) and only_len
                     ok = ok and real
-                    extra = '; new size derives from the old one: %s' % real
+                    extra = '; the buffer strictly grows (old length x constant >= 2, or + constant >= 1, nothing else): %s' % real
                 if cls == 'end':
                     # records total_out (bzip2/xz store len; deflate slices by compress.total_out() later)
                     rec = any(enc.term(x)['k'] == 'call' and cname(enc.term(x)).endswith('::total_out') for x in inside) or adt.startswith('flate2')
@@ -169,6 +175,11 @@ def run(ctx):
     level(ctx)
     consumed(ctx)
     reset(ctx, enc)
+    # block / flush bookkeeping of the writer (shared with C15): a block is emitted iff it holds elements, its
+    # count and buffer are reset only after success, every append happens after the pending block was flushed
+    from .c15 import typestate, mustcall
+    typestate(ctx)
+    mustcall(ctx)
 
 
 KIND = P + 'writer::compression::Kind'
